@@ -222,7 +222,21 @@ var osFuncs = map[string]string{
 	"Stat":      "FSStat",
 	"Create":    "FSCreate",
 	"MkdirAll":  "FSMkdirAll",
+	"OpenFile":   "FSOpenFile",
+	"Open":       "FSOpen",
+	"CreateTemp": "FSCreateTemp",
+	"Rename":     "FSRename",
+	"Remove":     "FSRemove",
 	"Exit":      "Exit",
+}
+
+// methods of *os.File that are redirected (hand-written write paths)
+var fileMethods = map[string]string{
+	"Write":       "FileWrite",
+	"WriteString": "FileWriteString",
+	"Sync":        "FileSync",
+	"Close":       "FileClose",
+	"Truncate":    "FileTruncate",
 }
 
 var fmtFuncs = map[string]string{
@@ -271,6 +285,12 @@ func (r *rewriter) rewrite() bool {
 				n.X = call("MapIter", n.X)
 				r.count("R1_map_range")
 			}
+		case *ast.CallExpr:
+			if p, typ, meth, recv, isPtr, ok := r.method(n); ok && p == "os" && typ == "File" && fileMethods[meth] != "" && isPtr {
+				n.Fun = sim(fileMethods[meth])
+				n.Args = append([]ast.Expr{recv}, n.Args...)
+				r.count("R7_file_method")
+			}
 		case *ast.SelectorExpr:
 			if p, name, ok := r.pkgFunc(n); ok {
 				switch {
@@ -290,7 +310,7 @@ func (r *rewriter) rewrite() bool {
 				case p == "fmt" && fmtFuncs[name] != "":
 					c.Replace(sim(fmtFuncs[name]))
 					r.count("R6_stdout")
-				case p == "os" && (name == "OpenFile" || name == "Rename" || name == "Remove" || name == "CreateTemp" || name == "Open"):
+				case p == "os" && (name == "Link" || name == "Symlink" || name == "RemoveAll" || name == "Mkdir" || name == "Chmod" || name == "Truncate"):
 					r.uncontrolled("fs_call_not_intercepted:"+name, n.Pos())
 				}
 			}
@@ -356,6 +376,10 @@ func (r *rewriter) rewrite() bool {
 					}
 					n.X = call(meth, arg)
 					r.count("R3_lock")
+				case (typ == "Mutex" || typ == "RWMutex") && (meth == "Unlock" || meth == "RUnlock") && c.Index() >= 0:
+					// a release: let the scheduler run somebody else right after it
+					c.InsertAfter(&ast.ExprStmt{X: call("Yield", str("unlock"))})
+					r.count("R3_yield_unlock")
 				case typ == "Cond":
 					r.uncontrolled("sync.Cond."+meth, n.Pos())
 				case typ == "WaitGroup" && meth == "Done" && c.Index() >= 0:
